@@ -71,6 +71,12 @@ func (r *RTPBuffer) Add(packet *RetainablePacket) {
 			r.packets[idx] = nil
 		}
 		r.highestAdded = seq
+	} else if r.highestAdded-seq >= r.size {
+		// older than the window: Get would never return it, and storing it
+		// would evict a newer packet that shares its slot
+		packet.Release()
+
+		return
 	}
 
 	idx := seq % r.size
